@@ -163,7 +163,9 @@ def conformal_units(h):
 
     def popcorr(interp, self, conformalization_data, scores, correction_quantile, estimand):
         # _compute_population_correction is a function of the calibration frame / scores / level (contracts/C04.py)
-        key = (conformalization_data.axis.doms[0].get_id(), scores.t.get_id(), correction_quantile.t.get_id())
+        from pyvc.values import tid
+
+        key = (tid(conformalization_data.axis.doms[0]), tid(scores.t), tid(correction_quantile.t))
         reg = interp.__dict__.setdefault("popcorr", {})
         if key not in reg:
             reg[key] = z3.Real(f"population_correction_{len(reg)}")
